@@ -31,13 +31,28 @@ func NewTofu(registry *template.Registry) *Tofu {
 func (tofu Tofu) Render(wr io.Writer, name string, obj interface{}) error {
 	var m data.Map
 	if obj != nil {
+		var val, err = convert(obj)
+		if err != nil {
+			return err
+		}
 		var ok bool
-		m, ok = data.New(obj).(data.Map)
+		m, ok = val.(data.Map)
 		if !ok {
 			return fmt.Errorf("invalid data type. expected map/struct, got %T", obj)
 		}
 	}
 	return tofu.NewRenderer(name).Execute(wr, m)
+}
+
+// convert is data.New, with its panic on a value it cannot convert (an array,
+// a map whose keys are not strings, a func, ...) returned as an error.
+func convert(obj interface{}) (val data.Value, err error) {
+	defer func() {
+		if e := recover(); e != nil {
+			err = fmt.Errorf("invalid data: %v", e)
+		}
+	}()
+	return data.New(obj), nil
 }
 
 // NewRenderer returns a new instance of a Soy html renderer, given the
